@@ -79,6 +79,15 @@ func (u Universe) GenDataset(t *rapid.T, maxPer int) Dataset {
 	pool := make([]model.TripleSpec, rapid.IntRange(3, 12).Draw(t, "npool"))
 	for i := range pool {
 		pool[i] = u.GenTriple(t, "pool")
+		// a temporal sibling of an earlier pool member: same subject, predicate id and
+		// object at another anchor (several matches of one "id"@[lo,hi] / "id"@[?t] clause
+		// that agree on every other binding)
+		if i > 0 && gen.Maybe(t, 25, "sibling") {
+			sib := pool[gen.Uniform(t, i, "sibling-of")]
+			a := gen.Pick(t, u.Anchors, "sibling-anchor")
+			sib.P.Anchor = &a
+			pool[i] = sib
+		}
 	}
 	for g := 0; g < ng; g++ {
 		name := GraphNames[g]
